@@ -586,6 +586,14 @@ def take_is_gather(ck, prog):
             writes_cnt = any(s[0] == "field" and s[2] == "0" for x in a[1:-1] for s in subterms(x))
             if not (ok and reads_idx and writes_cnt):
                 problems.append(f"store at {d.where(bb)} is not result[counter] = self[index value]: `{render(val)[:80]}`")
+        # every returned value is the gathered buffer: no path hands back self (or a copy of it) un-gathered
+        from sa.prov import alts as _alts
+        ret = res.local(0)
+        for a in [ret] + list(_alts(ret)):
+            if a[0] == "arg" and a[1] == 1:
+                problems.append("some path returns self (or a clone of it) instead of the gathered buffer: a selection of all "
+                                "rows in another order comes back unpermuted")
+                break
         if problems:
             ck.violation(rule, inst, d.path, f"{d.loc[0]}:{d.loc[1]}", expected="result[i] = self[index[i]] for (i, idx) in index.iter().enumerate(), default body used by the built-in type",
                          found="; ".join(problems))
@@ -600,3 +608,76 @@ def run(ck, prog):
     _run_c16b(ck, prog)
     take_is_gather(ck, prog)
     ck.floor("E8-by-construction", 2)
+
+
+# ------------------------------------------------------------------ fold sizes: quotient and remainder of the same division
+_run_pre_divmod = run
+
+
+def divmod_pairing(ck, prog):
+    """Fold sizes are n div k, with the n mod k left-over samples handed out one each. Structural necessary conditions in
+    KFold::test_indices (and its closures): every remainder taken is n % n_splits for n = rows(x) - the same operands as the
+    quotient - and the remainder is used as a count (iteration bound / take / comparison with a position), not merely tested
+    against zero. Decided: the operands and the role of the remainder; not the arithmetic of the resulting partition."""
+    from sa.prov import Resolver, render, subterms
+    from sa.match import dim_of
+    rule, inst = "E2-provenance", "KFold::test_indices: the remainder handed out is rows(x) % n_splits, used as a count"
+    try:
+        b = prog.one(r"^model_selection::kfold::KFold::test_indices$")
+    except AnchorError as e:
+        ck.violation(rule, inst, "KFold::test_indices", "", expected="anchor exists", found=f"anchor vanished: {e}")
+        return
+    bodies = [b] + prog.closures_of.get(b.path, [])
+    rems, flagged_zero, counted = {}, [], False
+
+    def is_n(t):
+        d = dim_of(t)
+        return bool(d) and d[0] in ("rows", "len") and ((d[1][0] == "arg" and d[1][1] == 2) or d[1][0] == "upvar")
+
+    def is_k(t):
+        return (t[0] == "field" and t[2] == "n_splits") or (t[0] == "upvar" and "n_splits" in str(t[1]))
+    for bd in bodies:
+        rs = Resolver(bd)
+        terms = []
+        for bb, t in bd.calls():
+            for a in t["args"]:
+                terms.append((bd.where(bb), rs.operand(a), t.get("f") or {}))
+        for i, j, s in bd.stmts():
+            if s["k"] == "assign" and s["r"]["k"] in ("bin", "agg"):
+                terms.append((bd.where(i, j), rs.rvalue(s["r"], 0, ()), {}))
+        for where, tm, f in terms:
+            for s in subterms(tm):
+                if s[0] == "bin" and s[1] == "Rem":
+                    rems.setdefault(render(s), (where, s))
+            # role: a remainder as take() count / range bound
+            if f.get("path", "").endswith(("Iterator::take", "Iterator::skip")) and tm[0] == "bin" and tm[1] == "Rem":
+                counted = True
+            if tm[0] == "agg" and tm[1].endswith("Range::Range") and any(x[0] == "bin" and x[1] == "Rem" for x in tm[2]):
+                counted = True
+        for c in guards.comparisons(bd, rs):
+            for (L, R) in ((c.lhs, c.rhs), (c.rhs, c.lhs)):
+                if L[0] == "bin" and L[1] == "Rem":
+                    if R == ("int", 0):
+                        flagged_zero.append(c.where)
+                    else:
+                        counted = True
+    if not rems:
+        ck.note(f"{inst}: no remainder operation in KFold::test_indices (sizes computed differently): no instance")
+        return
+    n = 0
+    for key, (where, s) in sorted(rems.items()):
+        n += 1
+        a, k = s[2], s[3]
+        if is_n(a) and is_k(k):
+            ck.ok(rule, inst, b.path, where, f"remainder `{key}`")
+        else:
+            ck.violation(rule, inst, b.path, where, ordinal=n, expected="rows(x) % self.n_splits",
+                         found=f"the remainder taken is `{key}`")
+    if flagged_zero and not counted:
+        ck.violation(rule, inst, b.path, flagged_zero[0], ordinal=99, expected="the remainder is the NUMBER of folds that receive one more sample",
+                     found="the remainder is only tested against zero (a flag): at most one fold is enlarged, the fold sizes no longer sum to n")
+
+
+def run(ck, prog):
+    _run_pre_divmod(ck, prog)
+    divmod_pairing(ck, prog)
